@@ -12,7 +12,8 @@ EXPLANATION = (
     "modules and the error type are `pub`; (T2) the base derive set is exactly {Serialize, Deserialize, Debug, Clone}; the only "
     "removal from it is Deserialize, and it happens exactly in the arms that emit a hand-written `impl Deserialize` (pairing, "
     "both directions); (D1) comparison/ordering/hash derives are added under exactly two guards — every variant is Simple (enum, "
-    "also Copy), the inner type is String (newtype) — neither of which admits a payload for which they are underivable."
+    "also Copy), the inner type is String (newtype) — neither of which admits a payload for which they are underivable; "
+    "(T1, completeness) to_stream applies the item renderer to every entry of id_to_entry, unfiltered."
 )
 ASSUMPTIONS = ["user-supplied extra derives are the user's responsibility"]
 
